@@ -17,9 +17,7 @@ use vm_memory::{FileOffset, GuestAddress, MmapRegion};
 fn err_name(e: &MmapRegionError) -> String {
     match e {
         MmapRegionError::InvalidOffsetLength => "err offlen".into(),
-        MmapRegionError::InvalidPointer => "err pointer".into(),
         MmapRegionError::MapFixed => "err mapfixed".into(),
-        MmapRegionError::MappingOverlap => "err overlap".into(),
         MmapRegionError::MappingPastEof => "err pasteof".into(),
         MmapRegionError::Mmap(_) => "err mmap".into(),
         MmapRegionError::SeekEnd(_) => "err seekend".into(),
@@ -221,10 +219,13 @@ impl XBuildWorld {
                 }
                 let mut g = self.grants.clone();
                 g.sort();
+                let obs = format!("{} {}", err_name(&e), self.fmt_state());
                 if g != before_grants {
                     rec.fail("C15", "x.new/failed-build-left-grant-mapping", &format!("{} -> {} grants {:?} -> {:?}", line, err_name(&e), before_grants, g));
+                    // reported once, here: later drops are judged against what the live regions own
+                    self.grants = before_grants.clone();
                 }
-                format!("{} {}", err_name(&e), self.fmt_state())
+                obs
             }
         };
         let _ = &self.regs.get(&id).map(|l| &l.region);
